@@ -45,10 +45,16 @@ func (g *customGen[V]) maybeValue(t *T) (V, bool) {
 			if _, ok := r.(invalidData); !ok {
 				panic(r)
 			}
+			t.cleanup()
+			t.failOnError() // a failure signalled from a cleanup of the skipped attempt is still a failure
 		}
 	}()
 
-	return g.fn(t), true
+	v := g.fn(t)
+	t.cleanup()
+	t.failOnError() // non-fatal failures signalled on the T given to fn (or from its cleanups) fail the test case
+
+	return v, true
 }
 
 // Deferred creates a generator which defers calling fn until attempting to produce a value. This allows
